@@ -246,9 +246,22 @@ func readViaStorage(file []byte) string {
 
 // boundaryBlocks: sections whose length sits exactly on a varint width boundary (127/128 and
 // 16383/16384 bytes of CID + data), where framing code that sizes buffers from the length can slip.
-func boundaryBlocks(g *Gen) []Blk {
+func boundaryBlocks(g *Gen) []Blk { return blocksOfSectionLen(g, []int{127, 128, 129, 16383, 16384, 16385}) }
+
+// bufferBoundaryBlocks: sections whose CID + data length sits on a power of two (the sizes scratch
+// buffers, pages and copy chunks come in), one below and one or two above.
+func bufferBoundaryBlocks(g *Gen, thorough bool) []Blk {
+	Ls := []int{255, 256, 257, 511, 512, 513, 1023, 1024, 1025, 2047, 2048, 2049, 4094, 4095, 4096, 4097, 4098,
+		8191, 8192, 8193, 32767, 32768, 32769}
+	if thorough {
+		Ls = append(Ls, 65535, 65536, 65537, 131071, 131072, 131073)
+	}
+	return blocksOfSectionLen(g, Ls)
+}
+
+func blocksOfSectionLen(g *Gen, Ls []int) []Blk {
 	var out []Blk
-	for _, L := range []int{127, 128, 129, 16383, 16384, 16385} {
+	for _, L := range Ls {
 		d := g.bytes(L - 36)
 		h, _ := mh.Sum(d, mh.SHA2_256, -1)
 		out = append(out, Blk{cid.NewCidV1(cid.Raw, h), d})
@@ -258,7 +271,7 @@ func boundaryBlocks(g *Gen) []Blk {
 
 func famC01(g *Gen, o *Out, n int, thorough bool) {
 	seq := 0
-	for c := -1; c < n; c++ {
+	for c := -2; c < n; c++ {
 		maxB := 6
 		if thorough {
 			maxB = 12
@@ -275,6 +288,9 @@ func famC01(g *Gen, o *Out, n int, thorough bool) {
 		}
 		if c == -1 {
 			bs = boundaryBlocks(g)
+		}
+		if c == -2 {
+			bs = bufferBoundaryBlocks(g, thorough)
 		}
 		wholeBatch = c == 0
 		if c == 0 {
